@@ -88,7 +88,7 @@ def build_jobs(tier, seed, expand=False):
 
 def summarise(results, jobs):
     violations, broken = [], []
-    evals = stuck = ws1 = ws0 = expanded = closure_args = 0
+    evals = stuck = ws1 = ws0 = expanded = closure_args = subst_ties = 0
     outcomes = {}
     for r in results:
         evals += r['evals']
@@ -99,12 +99,13 @@ def summarise(results, jobs):
             ws0 += 1
         expanded += r['kinds'].get('expanded', 0)
         closure_args += r['kinds'].get('closure_args', 0)
+        subst_ties += r['kinds'].get('subst_ties', 0)
         for k, v in r['outcomes'].items():
             outcomes[k] = outcomes.get(k, 0) + v
         violations += r['viol']
         broken += r['broken']
     cov = {'evaluations': evals, 'programs': len(jobs), 'well_scoped_programs': ws1, 'programs_with_shadowing': ws0,
-           'cases_where_model_is_undefined': stuck, 'real_outcomes': outcomes, 'programs_compared_with_their_expansion': expanded, 'argument_expressions_with_helper_functions': closure_args,
+           'cases_where_model_is_undefined': stuck, 'real_outcomes': outcomes, 'programs_compared_with_their_expansion': expanded, 'argument_expressions_with_helper_functions': closure_args, 'expansions_compared_with_lean_subst': subst_ties,
            'distinct_nontrivial': ws1 + ws0}
     return cov, violations, broken
 
